@@ -30,7 +30,7 @@ ACtl == [simple |-> {Eff, IncA, Y(Lit0), Y(VarA)},
          inits |-> {None, Y(Lit0)}, posts |-> {None, PAssign, Y(Lit0)}, conds |-> {None, T0},
          ifinits |-> {None}, kinds |-> {"if", "ifelse", "switch", "block", "for"}, jumps |-> AllJumps \cup {"retx"}, ranges |-> {}]
 AScope == [simple |-> {Eff, DefA, IncA, [k |-> "callf"], Y(VarA)},
-           inits |-> {None, DefA}, posts |-> {None, IncA}, conds |-> {T0},
+           inits |-> {None, DefA}, posts |-> {None, IncA, Y(VarA)}, conds |-> {T0},
            ifinits |-> {None, DefA}, kinds |-> {"if", "ifelse", "switch", "block", "for"}, jumps |-> {"continue"}, ranges |-> {}]
 AYf == [simple |-> {Eff, IncA, Y(VarA)} \cup YFs,
         inits |-> {None}, posts |-> {None} \cup YFs, conds |-> {T0},
@@ -55,6 +55,19 @@ AExpr == [simple |-> {Eff, IncA} \cup {Y(e) : e \in Exprs},
 \* post statement, switch, if), so that nesting depth 4-5 is exhaustively reachable
 AJump == [simple |-> {Y(Lit0)}, inits |-> {None}, posts |-> {None, Y(Lit0)}, conds |-> {T0},
           ifinits |-> {None}, kinds |-> {"if", "switch", "for"}, jumps |-> {"break", "continue"}, ranges |-> {}]
+\* closures of eta shape (C07 / C13): function variable as loop condition that the body reassigns, method
+\* value whose receiver variable is reassigned, wrappers around a package function, a generic instance,
+\* a builtin and a conversion
+CV == [k |-> "cv", id |-> 0]
+AOpt == [simple |-> {Eff, IncA, [k |-> "setcv"], [k |-> "sets"], Y(VarA), Y([k |-> "gets"]), Y([k |-> "pk", n |-> "a"]),
+                     Y([k |-> "idg", n |-> "a"]), Y([k |-> "ln"]), Y([k |-> "cnv", n |-> "a"])},
+         inits |-> {None}, posts |-> {None, PAssign, Y([k |-> "gets"])}, conds |-> {T0, CV},
+         ifinits |-> {None}, kinds |-> {"if", "for"}, jumps |-> {"break", "continue"}, ranges |-> {}]
+\* bystanders (C13): plain functions of a processed file -- the same closures, observed by effects instead of yields
+EffX(v) == [k |-> "effx", id |-> 0, v |-> v]
+ABy == [AOpt EXCEPT !.simple = {Eff, IncA, [k |-> "setcv"], [k |-> "sets"], EffX([k |-> "gets"]), EffX([k |-> "pk", n |-> "a"]),
+                                EffX([k |-> "idg", n |-> "a"]), EffX([k |-> "ln"]), EffX([k |-> "cnv", n |-> "a"])},
+                    !.posts = {None, PAssign}]
 ACtlX == [ACtl EXCEPT !.kinds = @ \cup {"switchd", "tswitch", "notag"}]
 \* range loops inside generators (C04): every collection kind x variable forms x body shapes
 RangeHdr(kind, xf, kf, vf) == [k |-> "range", id |-> 0, kind |-> kind, xf |-> xf, kf |-> kf, vf |-> vf, wrap |-> "none", body |-> <<>>]
@@ -71,7 +84,7 @@ ARange == [simple |-> {Y(VarK), Y(VarV), Mut("sset", 2), Mut("sapp", 0), Mut("st
            inits |-> {None}, posts |-> {None}, conds |-> {T0}, ifinits |-> {None},
            kinds |-> {"range", "if"}, jumps |-> {"break", "continue"}, ranges |-> Ranges]
 ARangeX == [ARange EXCEPT !.simple = @ \cup {Mut("nset", 0), Mut("strset", 0), Mut("sset", 0), Mut("aset", 0)}]
-A == CASE Family = "range" -> ARange [] Family = "rangex" -> ARangeX [] Family = "ctl" -> ACtl [] Family = "scope" -> AScope [] Family = "yf" -> AYf [] Family = "yfl" -> AYfL [] Family = "panic" -> APanic [] Family = "ctlx" -> ACtlX [] Family = "eff" -> AEff [] Family = "expr" -> AExpr [] Family = "jump" -> AJump
+A == CASE Family = "range" -> ARange [] Family = "rangex" -> ARangeX [] Family = "ctl" -> ACtl [] Family = "scope" -> AScope [] Family = "yf" -> AYf [] Family = "yfl" -> AYfL [] Family = "panic" -> APanic [] Family = "ctlx" -> ACtlX [] Family = "eff" -> AEff [] Family = "expr" -> AExpr [] Family = "jump" -> AJump [] Family = "opt" -> AOpt [] Family = "by" -> ABy
 
 \* Go scoping: `a := ...` at most once per block and never in the function's top block
 \* (a is a parameter there: "no new variables on left side of :=")
@@ -98,7 +111,7 @@ HasBoomS(s) == (s.k = "yield" /\ s.v.k = "b1")
 HasBoom(b) == \E j \in 1..Len(b) : HasBoomS(b[j])
 \* a function without a Yield is not a generator for the tool (it would run eagerly: C13's business)
 IsRangeFam == Family \in {"range", "rangex"}
-Member(p) == /\ HasY(p) /\ (Family = "scope" => ScopeOK(p, 0)) /\ (Family = "panic" => (HasK(p, "panic") \/ HasBoom(p)))
+Member(p) == /\ (IF Family = "by" THEN ~HasY(p) /\ HasK(p, "effx") ELSE HasY(p)) /\ (Family = "scope" => ScopeOK(p, 0)) /\ (Family = "panic" => (HasK(p, "panic") \/ HasBoom(p)))
              /\ (IsRangeFam => HasK(p, "range"))
 \* range family: every program ends with an observation of the function-level kk, vv and a final yield
 \* (so range loops whose bodies do not yield are still inside a generator); a range loop without a
@@ -167,5 +180,6 @@ DoneStaysDone == [][w.cos[1].done => (w'.cos[1].done /\ w'.log = w.log /\ w'.cos
 
 Done == calls = MaxCalls \/ (Panicked(w) /\ Panicked(wb))
 Emit == Done => PrintT(ToJson([fam |-> Family, prog |-> prog, tape |-> tape0, plen |-> plen, ideal |-> obs,
+                               reta |-> Get(w, w.cos[1].penv, "a"),
                                same |-> obs = obsB, asbuilt |-> IF obs = obsB THEN <<>> ELSE obsB]))
 =============================================================================
